@@ -303,7 +303,10 @@ def c10(rng, count):
                 A = eol
             B = gen_input(rng, delim, alpha, eol, maxrec=3, maxfields=7)
         for role, d in (("A", A), ("B", B), ("AB", A + B)):
-            out.append(Case(argv, d, tags={"grp": g, "role": role}))
+            if kind == "stream" and rng.random() < 0.7:
+                out.append(Case(argv, d, entry="stream", seg=_rand_seg(rng, len(d)) if d else [], tags={"grp": g, "role": role}))
+            else:
+                out.append(Case(argv, d, tags={"grp": g, "role": role}))
     return out
 
 
@@ -691,10 +694,13 @@ def c14(rng, count):
         out.append(Case(argv, data, tags={"grp": g, "role": "clean"}))
         for _ in range(2):
             k = rng.randint(0, len(data))
-            out.append(Case(argv, data, extra={"rfail": str(k)}, tags={"grp": g, "role": "r%d" % k, "fault": ("r", k)}))
-        for _ in range(2):
+            e = rng.choice(["5", "21", "4", "11"])          # EIO, EISDIR, EINTR is retried by std so not used as fatal: 4 kept out below
+            e = e if e != "4" else "5"
+            out.append(Case(argv, data, extra={"rfail": str(k), "rerrno": e}, tags={"grp": g, "role": "r%d_%s" % (k, e), "fault": ("r", k)}))
+        for _ in range(3):
             k = rng.randint(0, len(data) + 2)
-            out.append(Case(argv, data, extra={"wfail": str(k)}, tags={"grp": g, "role": "w%d" % k, "fault": ("w", k)}))
+            e = rng.choice(["28", "32", "5", "27"])          # ENOSPC, EPIPE, EIO, EFBIG
+            out.append(Case(argv, data, extra={"wfail": str(k), "werrno": e}, tags={"grp": g, "role": "w%d_%s" % (k, e), "fault": ("w", k)}))
         if rng.random() < 0.3:
             out.append(Case(argv, data, extra={"wshort": "1"}, tags={"grp": g, "role": "short", "fault": ("s", 1)}))
     return out
@@ -896,7 +902,8 @@ def c14_big(rng):
         t = {"grp": g, "nomodel": True}
         out.append(Case(argv, many, tags=dict(t, role="clean")))
         for k in (0, 1, BUF - 1, BUF, BUF + 1, 2 * BUF, 10 ** 9):
-            out.append(Case(argv, many, extra={"wfail": str(k)}, tags=dict(t, role="w%d" % k, fault=("w", k))))
+            e = rng.choice(["28", "32", "5"])
+            out.append(Case(argv, many, extra={"wfail": str(k), "werrno": e}, tags=dict(t, role="w%d_%s" % (k, e), fault=("w", k))))
         for k in (BUF - 1, BUF, BUF + 7, len(many) - 1):
             out.append(Case(argv, many, extra={"rfail": str(k)}, tags=dict(t, role="r%d" % k, fault=("r", k))))
     # a failing record after more than a buffer of good output
